@@ -1,33 +1,227 @@
-"""C14: the anchored regular expressions of src/expression.rs (per parsing function, in source order) and the
-function-name dispatch of eval_with_parameters.  The model in lean/Q1t/Model/Expr.lean re-implements exactly
-these patterns by hand; Q1t/Props/C14.lean proves `Gen.exprPatterns = Expr.modelledPatterns` by `decide`, so a
-changed pattern fails one named obligation."""
+"""C14: the anchored regular expressions of src/expression.rs, per parsing ROLE (the seven levels of the recursive
+descent parser, which the model in lean/Q1t/Model/Expr.lean re-implements by hand), in the order in which the role
+tries them, and the function-name dispatch of eval_with_parameters.  Q1t/Props/C14.lean proves
+`Gen.exprPatterns = Expr.modelledPatterns` by `rfl`, so a changed pattern fails one named obligation.
+
+What is extracted is the CONTENT the proofs consume: (role, [pattern texts in order of use]).  Semantically irrelevant
+shape is normalised:
+  * a pattern given as a raw / ordinary string literal, or through a module-level or local `const` / `static` `&str`
+    (also `Self::NAME`, `path::NAME`), is resolved to its text;
+  * private helper functions (any function of the file that is not one of the seven roles) are inlined at their call
+    site, transitively, so `parse_closing_parenthesis(..)` extracted from two roles gives back each role its `)` pattern;
+  * rows are keyed by role, not by the position of the function in the file; local names, comments, layout, `if let` vs
+    `match`, whitespace do not matter;
+  * the dispatch arms are read from the `match` on the function name inside `eval_with_parameters` whatever the local
+    variable is called and whether the arm says `Ok(x.sin())`, `x.sin()` or `f64::sin(x)`.
+Raises ValueError (static tie lost; see vlib policy) when a role is missing, a `Regex::new` argument cannot be resolved to
+text, or a pattern site lies outside every function.  A function with patterns that no role reaches is reported as an extra
+row (so the obligation fails: a new pattern site the model does not know)."""
 import re
 import translate as T
+
+ROLES = ["parse_real_literal", "parse_parenthesized_expression", "parse_function_expression", "parse_power_expression",
+         "parse_negative_expression", "parse_product_expression", "parse_sum_expression"]
 
 
 def _lean_str(s):
     return '"' + s.replace("\\", "\\\\").replace('"', '\\"') + '"'
 
 
+def _tokens(src):
+    """Split Rust source into ('code', text) / ('str', value) pieces; comments are dropped, string literals (ordinary,
+    raw, byte) are decoded to their value.  Char literals and lifetimes stay in the code."""
+    out, i, n, buf = [], 0, len(src), []
+    def flush():
+        if buf:
+            out.append(("code", "".join(buf)))
+            del buf[:]
+    while i < n:
+        c = src[i]
+        if src.startswith("//", i):
+            j = src.find("\n", i)
+            i = n if j < 0 else j
+            continue
+        if src.startswith("/*", i):
+            depth, i = 1, i + 2
+            while i < n and depth:
+                if src.startswith("/*", i): depth += 1; i += 2
+                elif src.startswith("*/", i): depth -= 1; i += 2
+                else: i += 1
+            buf.append(" ")
+            continue
+        m = re.compile(r'b?r(#*)"').match(src, i)
+        if m and (i == 0 or not (src[i - 1].isalnum() or src[i - 1] == "_")):
+            end = src.find('"' + m.group(1), m.end())
+            if end < 0:
+                raise ValueError("expression.rs: unterminated raw string")
+            flush()
+            out.append(("str", src[m.end():end]))
+            i = end + 1 + len(m.group(1))
+            continue
+        if c == '"':
+            j, val = i + 1, []
+            while j < n and src[j] != '"':
+                if src[j] == "\\":
+                    e = src[j + 1]
+                    simple = {"n": "\n", "t": "\t", "r": "\r", "\\": "\\", '"': '"', "'": "'", "0": "\0"}
+                    if e in simple:
+                        val.append(simple[e]); j += 2
+                    elif e == "\n":
+                        j += 2
+                        while j < n and src[j] in " \t\r\n": j += 1
+                    elif e == "x":
+                        val.append(chr(int(src[j + 2:j + 4], 16))); j += 4
+                    elif e == "u":
+                        k = src.index("}", j)
+                        val.append(chr(int(src[j + 3:k].replace("_", ""), 16))); j = k + 1
+                    else:
+                        raise ValueError("expression.rs: unknown escape \\%s" % e)
+                else:
+                    val.append(src[j]); j += 1
+            flush()
+            out.append(("str", "".join(val)))
+            i = j + 1
+            continue
+        if c == "'":
+            # char literal ('x', '\n', '\u{..}') or lifetime: copy verbatim so that quotes inside do not confuse anything
+            m = re.compile(r"'(\\u\{[0-9a-fA-F_]+\}|\\x[0-9a-fA-F]{2}|\\.|[^\\'])'").match(src, i)
+            if m:
+                buf.append(" '' "); i = m.end()
+                continue
+        buf.append(c)
+        i += 1
+    flush()
+    return out
+
+
+def _flatten(toks):
+    """code text with every string literal replaced by the placeholder \x00<k>\x00 (k indexes `strs`)"""
+    strs, parts = [], []
+    for kind, t in toks:
+        if kind == "code":
+            parts.append(t)
+        else:
+            parts.append("\x00%d\x00" % len(strs))
+            strs.append(t)
+    return "".join(parts), strs
+
+
+def _match_brace(code, i):
+    """index just after the brace group opening at code[i] == '{'"""
+    depth = 0
+    for j in range(i, len(code)):
+        if code[j] == "{": depth += 1
+        elif code[j] == "}":
+            depth -= 1
+            if depth == 0:
+                return j + 1
+    raise ValueError("expression.rs: unbalanced braces")
+
+
+_STR = re.compile("\x00(\\d+)\x00")
+
+
 @T.generator("ExprPatterns")
 def gen(repo):
     src = T.read(repo, "src/expression.rs")
-    src = src.split("#[cfg(test)]")[0]
-    fns = list(re.finditer(r"\bfn\s+(\w+)\s*[<(]", src))
-    rows = []
-    for i, m in enumerate(fns):
-        body = src[m.end():(fns[i + 1].start() if i + 1 < len(fns) else len(src))]
-        pats = re.findall(r'Regex::new\(\s*r"([^"]*)"\s*\)', body)
-        if "Regex::new" in body and len(pats) != body.count("Regex::new"):
-            raise ValueError("expression.rs: a Regex::new call in %s is not a raw string literal" % m.group(1))
-        if pats:
-            rows.append((m.group(1), pats))
-    if not rows:
-        raise ValueError("expression.rs: no Regex::new(r\"...\") found")
-    arms = re.findall(r'"(\w+)"\s*=>\s*Ok\(x\.(\w+)\(\)\)', src)
+    code, strs = _flatten(_tokens(src))
+    # drop test modules: `#[cfg(test)] mod name { ... }`
+    while True:
+        m = re.search(r"#\s*\[\s*cfg\s*\(\s*test\s*\)\s*\]\s*(?:pub\s+)?mod\s+\w+\s*\{", code)
+        if not m:
+            break
+        code = code[:m.start()] + code[_match_brace(code, m.end() - 1):]
+
+    # constants holding pattern text (anywhere: module level, impl level, inside a function)
+    consts = {}
+    for m in re.finditer(r"\b(?:const|static)\s+(\w+)\s*:\s*&\s*(?:'\s*static\s+)?str\s*=\s*\x00(\d+)\x00\s*;", code):
+        consts[m.group(1)] = strs[int(m.group(2))]
+
+    # functions with their bodies
+    fns = {}
+    order = []
+    for m in re.finditer(r"\bfn\s+(\w+)\b", code):
+        j = m.end()
+        # the body is the first brace group after the signature (a `;` first means a declaration without body)
+        k = j
+        while k < len(code) and code[k] not in "{;":
+            k += 1
+        if k >= len(code) or code[k] == ";":
+            continue
+        end = _match_brace(code, k)
+        fns[m.group(1)] = (k, end)
+        order.append(m.group(1))
+    missing = [r for r in ROLES if r not in fns]
+    if missing:
+        raise ValueError("expression.rs: parsing function(s) %s not found (roles are keyed by these names)" % ", ".join(missing))
+
+    # every Regex::new site must lie inside a function
+    sites = [m.start() for m in re.finditer(r"\bRegex\s*::\s*new\s*\(", code)]
+    for s in sites:
+        if not any(a <= s < b for a, b in fns.values()):
+            raise ValueError("expression.rs: a Regex::new call outside every function (lazy/static regex): shape not recognised")
+    if not sites:
+        raise ValueError("expression.rs: no Regex::new call found")
+
+    def innermost(pos):
+        best = None
+        for name, (a, b) in fns.items():
+            if a <= pos < b and (best is None or fns[best][0] < a):
+                best = name
+        return best
+
+    call_re = re.compile(r"\bRegex\s*::\s*new\s*\(\s*(?:&\s*)?(?:\x00(\d+)\x00|((?:\w+\s*::\s*)*\w+))\s*\)|\b(\w+)\s*\(")
+
+    def events(name):
+        a, b = fns[name]
+        ev = []
+        for m in call_re.finditer(code, a, b):
+            if innermost(m.start()) != name:
+                continue            # belongs to a nested fn item
+            if m.group(1) is not None:
+                ev.append(("pat", strs[int(m.group(1))]))
+            elif m.group(2) is not None:
+                ident = re.split(r"\s*::\s*", m.group(2))[-1]
+                if ident not in consts:
+                    raise ValueError("expression.rs: Regex::new(%s) in %s: not a string literal or a const &str of this file"
+                                     % (m.group(2), name))
+                ev.append(("pat", consts[ident]))
+            elif m.group(3) in fns and m.group(3) != name:
+                # a call `helper(`, `Self::helper(`, `Expression::helper(` (a method call `.helper(` as well)
+                ev.append(("call", m.group(3)))
+        return ev
+
+    inlined = set()
+
+    def patterns(name, stack):
+        out = []
+        for kind, x in events(name):
+            if kind == "pat":
+                out.append(x)
+            elif x not in ROLES and x not in stack:
+                inlined.add(x)
+                out.extend(patterns(x, stack + [x]))
+        return out
+
+    rows = [(r, patterns(r, [r])) for r in ROLES]
+    for name in order:
+        if name not in ROLES and name not in inlined:
+            ps = patterns(name, [name])
+            if ps:
+                rows.append((name, ps))     # a pattern site no role reaches: the model does not know it
+    rows = [(n, ps) for n, ps in rows if ps]
+
+    # dispatch on the function name in eval_with_parameters:  "sin" => Ok(x.sin()) | x.sin() | f64::sin(x) | Ok(f64::sin(x))
+    if "eval_with_parameters" not in fns:
+        raise ValueError("expression.rs: eval_with_parameters not found")
+    a, b = fns["eval_with_parameters"]
+    body = code[a:b]
+    arms = []
+    for m in re.finditer(r"\x00(\d+)\x00\s*=>\s*(?:Ok\s*\(\s*)?(?:\w+\s*\.\s*(\w+)\s*\(\s*\)|f64\s*::\s*(\w+)\s*\(\s*\w+\s*\))", body):
+        arms.append((strs[int(m.group(1))], m.group(2) or m.group(3)))
     if not arms:
-        raise ValueError("expression.rs: function dispatch arms `\"name\" => Ok(x.method())` not found")
+        raise ValueError("expression.rs: function dispatch arms `\"name\" => Ok(x.method())` not found in eval_with_parameters")
+
     out = T.header("ExprPatterns", "src/expression.rs (Regex::new patterns; eval function dispatch)")
     out += "/-- For every parsing function, its `Regex::new(r\"…\")` patterns in source order. -/\n"
     out += "def exprPatterns : List (String × List String) := [\n"
